@@ -43,10 +43,11 @@ EdgeLess(e, f) == Lo(e) < Lo(f) \/ (Lo(e) = Lo(f) /\ Hi(e) < Hi(f))
 EdgeSeq(es, lab) == LET s == SetToSortSeq(es, EdgeLess) IN [j \in DOMAIN s |-> [a |-> Lo(s[j]), b |-> Hi(s[j]), lt |-> lab[s[j]]]]
 NoLab(es) == [e \in es |-> ""]
 Names(n) == [1..n -> {"A", "B"}]
-MkCaseB(n, es, lab, names, labs, blocks, links) ==
-  [n |-> n, resid |-> [r \in 1..n |-> r],
+MkCaseR(n, es, lab, names, labs, blocks, links, resid) ==
+  [n |-> n, resid |-> resid,
    rattr |-> [r \in 1..n |-> IF labs[r] = "" THEN [resname |-> names[r]] ELSE [resname |-> names[r], lab |-> labs[r]]],
    edges |-> EdgeSeq(es, lab), blocks |-> blocks, links |-> links]
+MkCaseB(n, es, lab, names, labs, blocks, links) == MkCaseR(n, es, lab, names, labs, blocks, links, [r \in 1..n |-> r])
 MkCase(n, es, lab, names, labs, links) == MkCaseB(n, es, lab, names, labs, Blocks, links)
 NoLabs(n) == [r \in 1..n |-> ""]
 \* a "G" is a residue graph with names and labels: <<n, edge set, names, edge labels, residue labels>>
@@ -54,7 +55,11 @@ GN(nmax) == UNION { UNION { { <<n, es, nm, NoLab(es), NoLabs(n)>> : nm \in Names
 AllA(g) == \A r \in 1..g[1] : g[3][r] = "A"
 Mk(g, ff) == MkCase(g[1], g[2], g[4], g[3], g[5], ff)
 \* a force field of an exported family is [blocks, links]
-MkF(g, ff) == MkCaseB(g[1], g[2], g[4], g[3], g[5], ff.blocks, ff.links)
+\* an optional sixth component of a G assigns the residue ids: node keys (= residue index - 1) need not follow the residue ids
+MkF(g, ff) == MkCaseR(g[1], g[2], g[4], g[3], g[5], ff.blocks, ff.links, IF Len(g) = 6 THEN g[6] ELSE [r \in 1..g[1] |-> r])
+Perms(n) == { p \in [1..n -> 1..n] : \A i, j \in 1..n : i # j => p[i] # p[j] }
+WithPerms(G) == UNION { { <<g[1], g[2], g[3], g[4], g[5], p>> : p \in Perms(g[1]) } : g \in G }
+NonId(G) == { g \in G : g[6] # [r \in 1..g[1] |-> r] }
 FFof(S) == { [blocks |-> Blocks, links |-> ls] : ls \in S }
 Plain(G, FFs) == { Mk(g, ff) : g \in G, ff \in FFs }
 PlainF(G, FFs) == { MkF(g, ff) : g \in G, ff \in FFs }
@@ -206,6 +211,31 @@ MissFFs == { << >>,                                                     \* no li
 GsM(u) == GN(4)
 FFsM(u) == FFof(MissFFs)
 
+(* ---- family F (independent seed C02-2): the residue name sits on a SUBSET of the atoms of an order, residues of another name carry the same atom names *)
+BlkC == [atoms |-> << [atomname |-> "a1", atype |-> "TA", resname |-> "C"], [atomname |-> "a2", atype |-> "TC", resname |-> "C"] >>,
+         inters |-> << Bond(1, 2, "0.1") >>]
+Blocks3 == [A |-> BlkA, B |-> BlkB, C |-> BlkC]
+AC == <<"A", "C">>
+OC == <<"C">>
+AtN(oi, an) == [oi |-> oi, sel |-> [atomname |-> <<an>>], rep |-> <<>>, del |-> FALSE]            \* a link atom that names no residue
+PartFFs == {
+  << Lk(<<Z, P1>>, <<AtR(1, "a1", OA), AtN(1, "a2"), AtR(2, "a1", AC)>>, <<Angle(1, 2, 3, "0.2")>>) >>,          \* a1 {resname A} next to a2 {}
+  << Lk(<<Z, GT>>, <<AtR(1, "a2", AC), AtR(2, "a1", AC), AtR(2, "a2", OC)>>, <<Angle(1, 2, 3, "0.2")>>) >>,      \* link-level A|C narrowed to C on one atom
+  << Lk(<<Z, ST>>, <<AtR(1, "a1", OA), AtR(1, "a2", AC), AtR(2, "a1", AC)>>, <<Bond(2, 3, "0.2")>>) >>,           \* the naming atom is not part of the interaction
+  << Lk(<<Z, P1>>, <<AtR(1, "a1", OA), AtN(1, "a2"), AtN(2, "a1"), AtR(2, "a2", OC)>>, <<Dih(1, 2, 3, 4, "0.2")>>) >>,
+  << Lk(<<Z, P1>>, <<AtN(1, "a2"), AtR(2, "a1", OC)>>, <<Bond(1, 2, "0.2")>>), Lk(<<Z, P1>>, <<AtR(1, "a2", OA), AtN(2, "a1")>>, <<Bond(1, 2, "0.3")>>) >>,
+  << Lk(<<Z>>, <<AtR(1, "a1", OC), WithRep(AtN(1, "a2"), "atype", "X")>>, <<>>) >> }
+NamesAC(n) == [1..n -> {"A", "C"}]
+GsF(u) == LET base == UNION { UNION { { <<n, es, nm, NoLab(es), NoLabs(n)>> : nm \in NamesAC(n) } : es \in Graphs(n) } : n \in 1..3 }
+          IN WithPerms(base)
+FFsF(u) == { [blocks |-> Blocks3, links |-> ls] : ls \in PartFFs }
+CasesDevNoAtomResname(u) == { MkCaseB(2, {{1, 2}}, NoLab({{1, 2}}), <<"C", "C">>, NoLabs(2), Blocks3,
+                                      << Lk(<<Z, P1>>, <<AtR(1, "a1", OA), AtN(1, "a2"), AtR(2, "a1", AC)>>, <<Angle(1, 2, 3, "0.2")>>) >>) }
+
+(* ---- family N (independent seed C10-2): node keys that are a permutation of the residue ids *)
+GsN(u) == NonId(WithPerms(GN(3))) \cup NonId(WithPerms({g \in GN(4) : g[1] = 4 /\ AllA(g) /\ Cardinality(g[2]) <= 4}))
+FFsN(u) == FFof({ << >>, << LB(P1, "0.2") >>, << LB(GT, "0.2") >>, << LA(ST, "0.2") >>, << LB(GT, "0.2"), TermDel >> })
+
 (* ---- small instances for I |= P and for the sensitivity runs *)
 CoreSmall == { Lk(<<Z, p>>, <<AtR(1, "a2", AB), AtR(2, x, r2)>>, <<Bond(1, 2, "0.2")>>) : p \in Pre, r2 \in RN2, x \in {"a1"} } \cup Three \cup Mixed
 CasesSmall(u) == Plain(GN(3), { <<l>> : l \in CoreSmall }) \cup PlainF(GsB(u), FFsB(u)) \cup PlainF(GsC(u), FFsC(u)) \cup PlainF(GsD(u), FFsD(u))
@@ -234,6 +264,7 @@ CasesDevVerKey(u) == One(3, Path3, <<"B", "A", "A">>, << LB(P1, "0.2"), TermDel 
 CasesDevF13(u) == { MkCase(3, Path3, NoLab(Path3), AAA, [r \in 1..3 |-> "q"],
                         << Lk(<<Z, P1>>, <<QSel(AtR(1, "a2", AB)), QSel(AtR(2, "a1", AB))>>, <<Bond(1, 2, "0.2")>>) >>) }
 CasesDevDegree(u) == One(2, {{1, 2}}, [r \in 1..2 |-> "A"], << LB(P1, "0.2") >>)
+CasesDevOrderedPairs(u) == { MkCaseR(3, Path3, NoLab(Path3), AAA, NoLabs(3), Blocks, << LB(GT, "0.2") >>, <<2, 1, 3>>) }
 
 (* ---- C10: FindMissing on molecules with arbitrary inter-residue atom edges and removed atoms *)
 InterPairs(c) == { e \in SUBSET Atoms(c) : Cardinality(e) = 2 /\ Cardinality({at[1] : at \in e}) = 2 }
@@ -245,10 +276,13 @@ MInit == /\ case \in Cases
 MSpec == MInit /\ [][FindMissing /\ UNCHANGED case]_vars
 
 (* ---- the family of this run *)
-FamGs == CASE Fam = "A" -> GsA(0) [] Fam = "B" -> GsB(0) [] Fam = "C" -> GsC(0) [] Fam = "D" -> GsD(0) [] Fam = "E" -> GsE(0) [] Fam = "M" -> GsM(0) [] OTHER -> {}
-FamFFs == CASE Fam = "A" -> FFsA(0) [] Fam = "B" -> FFsB(0) [] Fam = "C" -> FFsC(0) [] Fam = "D" -> FFsD(0) [] Fam = "E" -> FFsE(0) [] Fam = "M" -> FFsM(0) [] OTHER -> {}
+FamGs == CASE Fam = "A" -> GsA(0) [] Fam = "B" -> GsB(0) [] Fam = "C" -> GsC(0) [] Fam = "D" -> GsD(0) [] Fam = "E" -> GsE(0) [] Fam = "M" -> GsM(0) [] Fam = "F" -> GsF(0) [] Fam = "N" -> GsN(0) [] OTHER -> {}
+FamFFs == CASE Fam = "A" -> FFsA(0) [] Fam = "B" -> FFsB(0) [] Fam = "C" -> FFsC(0) [] Fam = "D" -> FFsD(0) [] Fam = "E" -> FFsE(0) [] Fam = "M" -> FFsM(0) [] Fam = "F" -> FFsF(0) [] Fam = "N" -> FFsN(0) [] OTHER -> {}
 FamCases == CASE Fam \in {"A", "B", "C", "D"} -> {}
               [] Fam = "M" -> PlainF({g \in GsM(0) : g[1] <= 3}, FFsM(0))
+              [] Fam = "F" -> PlainF({g \in GsF(0) : g[1] <= 2 \/ g[6] \in {<<1, 2, 3>>, <<2, 1, 3>>, <<3, 1, 2>>}}, FFsF(0))
+              [] Fam = "N" -> PlainF({g \in GsN(0) : g[1] <= 3}, FFsN(0))
+              [] Fam = "devNoAtomResname" -> CasesDevNoAtomResname(0) [] Fam = "devOrderedPairs" -> CasesDevOrderedPairs(0)
               [] Fam = "E" -> PlainF(GsE(0), FFsE(0))      \* exported families are enumerated chunk by chunk, see XNext
               [] Fam = "small" -> CasesSmall(0) [] Fam = "tiny" -> CasesTiny(0) [] Fam = "small4" -> CasesSmall4(0) [] Fam = "missing" -> CasesMissing(0) [] Fam = "missingS" -> Plain({g \in GN(2) : TRUE}, { << >> })
               [] Fam = "devMono" -> CasesDevMono(0) [] Fam = "devOrder" -> CasesDevOrder(0) [] Fam = "devLinktype" -> CasesDevLinktype(0)
@@ -256,7 +290,7 @@ FamCases == CASE Fam \in {"A", "B", "C", "D"} -> {}
               [] Fam = "devPattern" -> CasesDevPattern(0) [] Fam = "devKeepRemoved" -> CasesDevKeepRemoved(0) [] Fam = "devF13" -> CasesDevF13(0)
               [] Fam = "devDegree" -> CasesDevDegree(0) [] Fam = "devVerKey" -> CasesDevVerKey(0)
               [] Fam = "devAll" -> CasesDevMono(0) \cup CasesDevOrder(0) \cup CasesDevLinktype(0) \cup CasesDevFirstWins(0) \cup CasesDevAmbig(0) \cup CasesDevNonEdge(0)
-                                   \cup CasesDevPattern(0) \cup CasesDevKeepRemoved(0) \cup CasesDevVerKey(0) \cup CasesDevF13(0) \cup CasesDevDegree(0)
+                                   \cup CasesDevPattern(0) \cup CasesDevKeepRemoved(0) \cup CasesDevVerKey(0) \cup CasesDevNoAtomResname(0) \cup CasesDevOrderedPairs(0) \cup CasesDevF13(0) \cup CasesDevDegree(0)
 
 (* ---- export for the S->I replay: one root state, one chunk state per residue graph (spread over the workers), one state per case *)
 GSeq == SetToSeq(FamGs)
